@@ -14,9 +14,10 @@ Conventions
   wrap-around after 2^64 increments is not modelled).
 * the bin-number functions (`BinFor`, `OverlappingBinsFor`, `reg2bin`, `reg2bins`) and the merge
   strategies are *parameters* of the index functions.  The driver passes `Hts.Model.Coord.*` (C16) for
-  the bins and the executable mirrors `Hts.Model.Index.Local.*` of the strategies, which work on the
-  integer offsets used here (C17's `Hts.Model.Merge` has its own (file, block) offsets).
+  the bins and C17's strategies (`Hts.Model.Merge.*`) carried over to the integer offsets used here
+  (`Hts.Model.Index.Local.*`).
 -/
+import Hts.Model.Merge
 namespace Hts.Model.Index
 
 /-- a virtual offset (documentation alias; the fields below are declared as `Int` so that `omega` sees them) -/
@@ -235,34 +236,27 @@ def mergeChunks (s : List Chunk → List Chunk) (i : Index) : Index :=
   { i with refs := i.refs.map (fun r =>
       { r with bins := r.bins.map (fun b => { b with chunks := s (sortChunks b.chunks) }) }) }
 
-/-! ### executable mirrors of the merge strategies on integer offsets (for the driver) -/
+/-! ### the merge strategies: C17's models (Hts.Model.Merge) carried over to integer offsets
+
+A virtual offset `v` corresponds to the `bgzf.Offset{File: v >> 16, Block: uint16(v)}` the code builds with
+`makeOffset`; `Merge.vOff` is the way back.  The strategies used by the index model ARE C17's
+`Merge.adjacent`, `Merge.compressor`, `Merge.squash`, applied through this correspondence. -/
 namespace Local
 
-/-- `File` part of an offset as the code sees it after `makeOffset` -/
-def fileOf (o : Int) : Int := (o % 18446744073709551616) / 65536
+def toOff (v : Int) : Hts.Model.Merge.Offset := ⟨v / 65536, (v % 65536).toNat⟩
+def toM (c : Chunk) : Hts.Model.Merge.Chunk := ⟨toOff c.b, toOff c.e⟩
+def ofM (c : Hts.Model.Merge.Chunk) : Chunk := ⟨Hts.Model.Merge.vOff c.b, Hts.Model.Merge.vOff c.e⟩
 
-/-- the common loop of `adjacent` and `CompressorStrategy`: left to right, `cur` is the merged-so-far
-left neighbour (`chunks[c-1]`), which absorbs `chunks[c]` when `close cur chunks[c]` -/
-def mergeAux (close : Chunk → Chunk → Bool) (cur : Chunk) : List Chunk → List Chunk
-  | [] => [cur]
-  | r :: rest =>
-    if close cur r then mergeAux close ⟨cur.b, if cur.e > r.e then cur.e else r.e⟩ rest
-    else cur :: mergeAux close r rest
+/-- a strategy of C17's model as a function on the index model's chunks -/
+def lift (s : List Hts.Model.Merge.Chunk → List Hts.Model.Merge.Chunk) (cs : List Chunk) : List Chunk :=
+  (s (cs.map toM)).map ofM
 
 /-- `index.Adjacent` -/
-def adjacent : List Chunk → List Chunk
-  | [] => []
-  | x :: xs => mergeAux (fun l r => decide (l.e ≥ r.b)) x xs
-
+def adjacent : List Chunk → List Chunk := lift Hts.Model.Merge.adjacent
 /-- `index.CompressorStrategy(near)` -/
-def compressor (near : Int) : List Chunk → List Chunk
-  | [] => []
-  | x :: xs => mergeAux (fun l r => decide (fileOf l.e + near ≥ fileOf r.b)) x xs
-
+def compressor (near : Int) : List Chunk → List Chunk := lift (Hts.Model.Merge.compressor near)
 /-- `index.Squash` -/
-def squash : List Chunk → List Chunk
-  | [] => []
-  | x :: xs => [⟨x.b, xs.foldl (fun r c => if c.e > r then c.e else r) x.e⟩]
+def squash : List Chunk → List Chunk := lift Hts.Model.Merge.squash
 
 end Local
 end Hts.Model.Index
@@ -283,9 +277,11 @@ structure BaiRec where
   chunk : Chunk
 deriving DecidableEq, Repr, Inhabited
 
-/-- `sam.Record.Bin` = `BinFor(Pos, End())` with `binOf = internal.BinFor` (the flags play no role
-since the repair of DESIGN §6 #24) -/
-def recBin (binOf : Int → Int → Nat) (r : BaiRec) : Nat := binOf r.pos r.stop
+/-- `sam.Record.Bin` = `BinFor(Pos, End())` with `binOf = internal.BinFor`; an alignment that consumes no
+reference (`End() = Pos`) is binned as one base long (the flags play no role since the repair of
+DESIGN §6 #24) -/
+def recBin (binOf : Int → Int → Nat) (r : BaiRec) : Nat :=
+  binOf r.pos (if r.stop = r.pos then r.stop + 1 else r.stop)
 
 def toRec (binOf : Int → Int → Nat) (r : BaiRec) : Rec :=
   { rid := if r.hasRef then r.rid else -1, start := r.pos, stop := r.stop, bin := recBin binOf r,
